@@ -459,6 +459,11 @@ class SArr:
         idx = mask.nonzero()[0]
         out = self._gather(idx, checked=False)
         out._gathered_from = (self, mask)
+        nz = getattr(self, "_nz_of", None)
+        if nz is not None:
+            # self enumerates the true positions of an outer mask (self = outer.nonzero()[0]); self[mask] then enumerates the positions q with
+            # outer[q] and mask[rank(q)]: remembered so that  target[self[mask]] = scalar  can be modelled
+            out._nz_sub = (nz[0], nz[1], mask)
         return out
 
     def _mask_set(self, mask, value):
@@ -525,6 +530,14 @@ class SArr:
             else:
                 body = z3.If(hit, k.lift(value), z3.Select(base, q))
             self.store.arr = z3.Lambda([q], body)
+            return
+        sub = getattr(idx, "_nz_sub", None)
+        if sub is not None and not isinstance(value, SArr):
+            outer, rank, inner = sub
+            eng().prove("safety:index", outer.n <= n, "mask-derived indices must lie inside the target")
+            mo, mi = outer.snapshot(), inner.snapshot()
+            hit = z3.And(q >= off, q < off + outer.n, zbool(outer.kind.wrap(mo(q - off))), zbool(inner.kind.wrap(mi(rank(q - off)))))
+            self.store.arr = z3.Lambda([q], z3.If(hit, k.lift(value), z3.Select(base, q)))
             return
         raise Unsupported("fancy-index assignment with an index array of unknown structure")
 
